@@ -109,6 +109,17 @@ def tx_record(ref, t):
                 sec=list(t.sec), id=t.id)
 
 
+def sec_ids(ref, t):
+    """SECT-<gene position + 1> id of every annotated Sec codon -> its transcript position"""
+    return {f'SECT-{gene_pos(ref, t, p) + 1}': p for p in t.sec}
+
+
+def snv_at(ref, t, seq, pos, alt):
+    gs = gene_pos(ref, t, pos)
+    return dict(tx=t.id, gene=t.gene, start=pos, end=pos + 1, ref=seq[pos], alt=alt, id=f'SNV-{gs + 1}-{seq[pos]}-{alt}', type='SNV',
+                gstart=gs, gend=gs + 1)
+
+
 def var_record(v):
     return dict(start=v['start'], end=v['end'], ref=list(v['ref']), alt=list(v['alt']), id=v['id'])
 
@@ -128,14 +139,16 @@ def rand_cfg(r, rules=('trypsin',), exc_p=0.0):
 def spec_cfg(p, **extra):
     whole, frac = p['min_mw'].split('.')
     mw5 = int(whole) * 100000 + int((frac + '00000')[:5])
-    d = dict(rule=p['rule'], exc=p['exc'], misc=p['misc'], minLen=p['min_len'], maxLen=p['max_len'], minMw5=mw5)
+    d = dict(rule=p['rule'], exc=p['exc'], misc=p['misc'], minLen=p['min_len'], maxLen=p['max_len'], minMw5=mw5,
+             maxAdj=p.get('max_adj', 0), sect=bool(p.get('sect', False)), w2f=bool(p.get('w2f', False)))
     d.update(extra)
     return d
 
 
 def cli_cfg(p):
     return dict(cleavage_rule=p['rule'], cleavage_exception=p['exc'] or None, miscleavage=str(p['misc']),
-                min_mw=p['min_mw'], min_length=p['min_len'], max_length=p['max_len'])
+                min_mw=p['min_mw'], min_length=p['min_len'], max_length=p['max_len'], max_adjacent_as_mnv=p.get('max_adj', 0),
+                selenocysteine_termination=bool(p.get('sect', False)), w2f_reassignment=bool(p.get('w2f', False)))
 
 
 # ---- structural records (fusion, circRNA) for synthetic references ---------------------------------
